@@ -143,7 +143,7 @@ def walkHead (c : TCase) (checkInvalid : Bool) : HeadSt :=
       (match s.req, t.op, t.res with
        | some q, [_, k, v], ["unit"] => { s with req := some { q with added := q.added ++ [{ name := k.toLower, value := unhex v }] } }
        | _, _, _ => s)
-    | "despite" => (match s.req with | some q => { s with req := some { q with despite := true } } | none => s)
+    | "despite" => if t.res != ["unit"] then s else (match s.req with | some q => { s with req := some { q with despite := true } } | none => s)
     | "follow" =>
       (match s.req, t.op, t.res with
        | some q, [_, pol], ["flow", m, u] =>
